@@ -424,10 +424,16 @@ impl AsyncFleet {
                 }
                 Err(err) => {
                     let should_retry = is_retryable_error(&err);
+                    // Drop the cached connection whenever it can no longer be
+                    // used, not only when this call will be retried: keeping a
+                    // dead client would fail every later call on this node.
+                    let drop_connection = should_retry || is_connection_fatal(&err);
                     last_error = Some(err);
 
-                    if should_retry {
+                    if drop_connection {
                         invalidate_client(&state).await;
+                    }
+                    if should_retry {
                         if attempt + 1 < self.options.retry_policy.max_attempts {
                             tokio::time::sleep(self.options.retry_policy.delay).await;
                         }
@@ -473,10 +479,16 @@ impl AsyncFleet {
                 }
                 Err(err) => {
                     let should_retry = is_retryable_error(&err);
+                    // Drop the cached connection whenever it can no longer be
+                    // used, not only when this call will be retried: keeping a
+                    // dead client would fail every later call on this node.
+                    let drop_connection = should_retry || is_connection_fatal(&err);
                     last_error = Some(err);
 
-                    if should_retry {
+                    if drop_connection {
                         invalidate_client(&state).await;
+                    }
+                    if should_retry {
                         if attempt + 1 < self.options.retry_policy.max_attempts {
                             tokio::time::sleep(self.options.retry_policy.delay).await;
                         }
@@ -523,6 +535,7 @@ fn is_retryable_error(err: &RepeError) -> bool {
                 | std::io::ErrorKind::ConnectionReset
                 | std::io::ErrorKind::ConnectionAborted
                 | std::io::ErrorKind::NotConnected
+                | std::io::ErrorKind::BrokenPipe
                 | std::io::ErrorKind::UnexpectedEof
                 | std::io::ErrorKind::WouldBlock
                 | std::io::ErrorKind::Interrupted
@@ -530,4 +543,18 @@ fn is_retryable_error(err: &RepeError) -> bool {
         RepeError::ServerError { .. } => false,
         _ => false,
     }
+}
+
+/// Errors after which the connection itself is unusable even though the call is
+/// not retried: any I/O failure, and the framing errors on which the client's
+/// response loop shuts the socket down (a reply it could not parse).
+fn is_connection_fatal(err: &RepeError) -> bool {
+    matches!(
+        err,
+        RepeError::Io(_)
+            | RepeError::InvalidSpec(_)
+            | RepeError::InvalidHeaderLength(_)
+            | RepeError::LengthMismatch { .. }
+            | RepeError::BufferTooSmall { .. }
+    )
 }
